@@ -1,4 +1,5 @@
 import Chain33Model.Proofs.C25Deliver
+import Chain33Model.Proofs.C25Tx
 /-!
 Deliveries drawn from a well-formed block tree: total difficulties, the fork-choice invariant
 `tipMax`, the orphan lemma (no orphan waits for an indexed parent), and what they give once
@@ -11,6 +12,8 @@ structure Tree (g : Block) (T : List Block) : Prop where
   gh : g.height = 0
   uniq : UniqIds (g :: T)
   closed : ∀ b ∈ T, ∃ p ∈ g :: T, p.id = b.parent ∧ b.height = p.height + 1
+  /-- validity: no transaction occurs twice on one branch -/
+  txFresh : ∀ b ∈ g :: T, TxFresh (chainTo (g :: T) b.height b)
 
 /-- total difficulty of `b` in the block set `U`: sum of the work on its parent chain. -/
 def TD (U : List Block) (b : Block) : Nat := ((chainTo U b.height b).map (·.diff)).sum
@@ -41,6 +44,8 @@ structure TBase (g : Block) (T : List Block) (F : Nat) (s : State) : Prop where
     w ∈ s.index → ∃ r, s.best = w :: r
   /-- the finaliser is only ever reset downwards -/
   finLe : s.fin ≤ F
+  /-- the transaction index is the view of the best chain -/
+  txv : s.txIdx = txViewOf s.best
 
 /-- no orphan waits for a parent that is already indexed. -/
 def OrphPar (s : State) : Prop := ∀ o ∈ s.orphans, ∀ x ∈ s.index, x.id ≠ o.parent
@@ -89,7 +94,7 @@ theorem accept_tbase {g : Block} {T : List Block} {F : Nat} (ht : Tree g T) {s :
   subst hpp
   have hlk : lookup s.index b.parent = some p := by rw [← hpid]; exact lookup_of_mem hs.inv.uniq hp
   rcases maybeAcceptBlock_spec hs.inv hfresh hforph with ⟨e, _, hno | ⟨q, hq, hne⟩⟩ |
-      ⟨q, tp, s0, s', r, hq, hqid, hqh, hqtd, he, hi0, hi', e1, e2, e3, e4, e5, e6, e7, hss, hout⟩
+      ⟨q, tp, s0, s', r, hq, hqid, hqh, hqtd, he, hi0, hi', e1, e2, e3, e4, e5, e6, e7, e8, hss, hout⟩
   · rw [hlk] at hno; cases hno
   · rw [hlk] at hq; cases hq; exact absurd hh' hne
   · have hqp : q = p := hs.inv.uniq q hq p hp (hqid.trans hpid.symm)
@@ -113,7 +118,27 @@ theorem accept_tbase {g : Block} {T : List Block} {F : Nat} (ht : Tree g T) {s :
     have hfinLe := hs.finLe
     have hr : r = .main ∨ r = .side := by
       cases hout <;> simp
-    refine ⟨s', r, he, hr, ⟨hi', ?_, ?_, ?_, ?_, ?_, ?_, Nat.le_trans hfin' hfinLe⟩, hidx', hss.2.1.trans e2⟩
+    refine ⟨s', r, he, hr, ⟨hi', ?_, ?_, ?_, ?_, ?_, ?_, Nat.le_trans hfin' hfinLe, ?_⟩, hidx', hss.2.1.trans e2⟩
+    rotate_right
+    · -- txv
+      have hbestU : ∀ t rest, s.best = t :: rest → chainTo (g :: T) t.height t = t :: rest := by
+        intro t rest hb
+        exact chainTo_of_linked ht.uniq rest t (fun y hy => hs.idxSub y (hs.inv.bestIn y (hb ▸ hy)))
+          (hb ▸ hs.inv.linked)
+      cases hout with
+      | extend t rest hb0 _ hb' _ htx => rw [htx, hb', e8, e3, hs.txv]; rfl
+      | stay t rest tt tb _ _ _ _ _ hb' _ htx => rw [htx, hb', e8, e3]; exact hs.txv
+      | reorg t rest tt tb hb0 _ _ _ _ _ hb' _ htx =>
+        obtain ⟨f, pre1, pre2, rf, hc1, hb2, htx'⟩ := htx
+        rw [htx', hb', hc1, e8, hs.txv]
+        rw [e3] at hb0 hb2
+        have hfresh2 : TxFresh (pre2 ++ f :: rf) := by
+          have htin : t ∈ s.index := hs.inv.bestIn t (by rw [hb0]; simp)
+          have := ht.txFresh t (hs.idxSub t htin)
+          rw [hbestU t rest hb0, ← hb0, hb2] at this
+          exact this
+        rw [hb2, foldl_delTxs_view pre2 (f :: rf) hfresh2, foldl_addTxs_view]
+        simp
     · rw [hidx']; exact List.mem_cons_of_mem _ hs.gIn
     · intro x hx
       rw [hidx'] at hx
@@ -231,7 +256,7 @@ namespace C25
 theorem TBase.dropOrphan {g : Block} {T : List Block} {F : Nat} {s : State} (hs : TBase g T F s) (id : Nat) :
     TBase g T F (dropOrphan s id) :=
   ⟨hs.inv.dropOrphan id, hs.gIn, hs.idxSub, fun o ho => hs.orphSub o (List.mem_filter.mp ho).1,
-   hs.tdEq, hs.tipMax, hs.win, hs.finLe⟩
+   hs.tdEq, hs.tipMax, hs.win, hs.finLe, hs.txv⟩
 
 theorem filter_length_lt {l : List Block} {o : Block} (ho : o ∈ l) :
     (l.filter (fun x => x.id != o.id)).length < l.length := by
@@ -428,7 +453,7 @@ theorem processBlock_tree {g : Block} {T : List Block} {F : Nat} (ht : Tree g T)
       · -- into the pool
         have hpar' : haveBlock s b.parent = false := by simpa using hpar
         simp only [hhp, hpar', Bool.not_false, if_true]
-        refine ⟨⟨hs0.inv.addOrphan hfresh0 hforph0, hs0.gIn, hs0.idxSub, ?_, hs0.tdEq, hs0.tipMax, hs0.win, hs0.finLe⟩,
+        refine ⟨⟨hs0.inv.addOrphan hfresh0 hforph0, hs0.gIn, hs0.idxSub, ?_, hs0.tdEq, hs0.tipMax, hs0.win, hs0.finLe, hs0.txv⟩,
           ?_, ⟨fun x hx => by simp only [addOrphan, hidx0]; exact hx, fun o hom => ?_⟩, Or.inr (by simp [addOrphan]), ?_⟩
         · intro o hom
           simp only [addOrphan] at hom
